@@ -88,3 +88,24 @@ func init() {
 		Exhaustive:  "token table: every whitespace prefix of length <= 3 x every byte value (85 x 256 x 4 inputs) is enumerated completely",
 		MinCounters: map[string]int64{"end_of_input_cases": 85, "literal_null_accepted": 1000, "literal_true_accepted": 1000, "literal_false_accepted": 1000, "typed_read_successes": 500000}})
 }
+
+func init() {
+	register(&Spec{ID: "C07", Run: RunC07,
+		Rule:        "inputs: W1 sweep, W3 documents, W4 depth boundary (<= 10,000 only), W2 sample, W5; each traversed by HandleArrayValues and HandleObjectValues with a logging probe handler under every mask of 'return 0 / return the exact end' answers (all 2^m masks for m <= 8 callbacks, else 8 masks), nil and reused buffers; the callback log (absolute offset, aliasing with the document, raw key bytes) is checked offline against the model's member list; distinct inputs by hash; non-trivial = (document, traversal kind) pairs in which at least one callback happened",
+		Assumptions: append([]string{"'exact end' answers are computed by the reference model on the data the handler was given; for a member the model cannot parse, the handler returns its own error (the property's 'propagating any error of its own')"}, commonAssumptions...),
+		MinEvals:    5000000,
+		MinCounters: map[string]int64{"callbacks_observed": 5000000, "successful_traversals_checked": 500000, "members_string": 100000, "members_array": 50000, "members_object": 50000, "members_number": 100000}})
+	register(&Spec{ID: "C08", Run: RunC08,
+		Rule:        "inputs: W3, W1, W4 (<= 10,000 deep), W2 sample; for each, direct ReadValue vs 4 (quick) / 10 (thorough) API-composition decoders whose per-value choices (typed reader variant, Decode*, SkipValue, SkipValueFast, return 0, nested Handle*Values with nil or shared buffer, keys via UnescapeStringContent) are drawn from a PRNG seeded by the input; programs 0-1 read everything; distinct inputs by hash; non-trivial = direct decoding succeeded with an array or object at top level",
+		Assumptions: commonAssumptions, MinEvals: 3000000,
+		MinCounters: map[string]int64{"direct_decoding_succeeded": 300000, "direct_decoding_failed": 300000, "api_calls_HandleArrayValues": 100000, "api_calls_HandleObjectValues": 100000, "api_calls_SkipValueFast": 20000, "api_calls_return 0": 10000}})
+	register(&Spec{ID: "C09", Run: RunC09,
+		Rule:        "inputs: W3, W1, W4, W5; for each document and both traversals, a probe handler that fails at call k (every k for <= 8 callbacks) with a unique sentinel error and an accompanying offset from {0,1,-1,exact,len,len+1,MaxInt,MaxInt-1,MinInt,exact/2,-len}; earlier calls alternate between declining and exact skipping; distinct inputs by hash; non-trivial = (document, traversal kind) pairs with at least one callback",
+		Assumptions: commonAssumptions, MinEvals: 3000000,
+		MinCounters: map[string]int64{"error_returns_observed": 2000000, "failing_member_string": 50000, "failing_member_number": 50000, "failing_member_array": 50000, "failing_member_object": 50000, "failing_member_null": 20000, "failing_member_bool": 20000}})
+	register(&Spec{ID: "C10", Run: RunC10,
+		Rule:        "inputs (held in read-only guard pages): raw random bytes and structural soups, a third of the W1 sweep (all of it in thorough), W3, W4 incl. depth 10,001+, W2 sample, W5 megabyte tokens and 1,048,576-deep nestings; each through every exported function (44 call forms; nil/fresh/long-lived buffers, one long-lived ValueReader) and through both traversals under 6 (quick) / 16 (thorough) hostile handler programs returning negative, beyond-end, near-MaxInt, MinInt, off-by-one and mid-token offsets; distinct by hash; non-trivial = at least 2 bytes",
+		Assumptions: append([]string{"non-termination is detected by a stall watchdog (no new case for 120 s) confirmed by a single-case replay under a 10-minute limit; a fired-but-unconfirmed watchdog is inconclusive"}, commonAssumptions...),
+		MinEvals:    20000000,
+		MinCounters: map[string]int64{"hostile_programs_run": 5000000, "out_of_range_offsets_that_must_be_reported": 500000, "hostile_offsets_near_maxint": 100000, "hostile_offsets_negative": 100000, "hostile_offsets_mid_token": 100000, "inputs_in_read_only_pages": 1000000}})
+}
